@@ -1277,6 +1277,16 @@ class OrderedMultiDict(dict):
         self.update(other)
         return self
 
+    def popitem(self):
+        """Remove and return the most-recently inserted ``(key, value)``
+        pair, like :meth:`dict.popitem`. Older values under the same
+        key are kept. Raises :exc:`KeyError` if the dictionary is empty.
+        """
+        if not self:
+            raise KeyError('popitem(): %s is empty' % type(self).__name__)
+        k = self.root[PREV][KEY]
+        return k, self.poplast(k)
+
     def pop(self, k, default=_MISSING):
         """Remove all values under key *k*, returning the most-recently
         inserted value. Raises :exc:`KeyError` if the key is not
